@@ -30,6 +30,10 @@ CLAIMED = {
         technique="complete enumeration of all 2^24 addresses with a hash-set injectivity oracle and an independent block table",
         text="Complete enumeration of all 2^24 addresses through the real tail() (and aircraft_information); registrations are collected in a hash map for injectivity and matched against the address-block table that the harness reads from patterns.json itself. thorough adds all other u32 arguments for totality.",
         note="Trusted: patterns.json as the block table (the property names it); country names are not compared (categories may override them); blocks without a prefix pattern are counted only."),
+    "C09": dict(engine=E1, design="4/C09",
+        technique="deviation-bounded exhaustive exploration of read chunkings of the real Beast framer fed from an in-memory chunk queue",
+        text="Deviation-bounded exhaustive exploration of the real beast::next_msg, the deviation being a cut of the byte stream between two reads: for every stream F1.F2.tail with F1 over all placements of <= 2 (thorough 3) escaped 0x1A bytes in Mode-AC / short / long frames, runs of 4-6 and all-0x1A bodies, three fillers, and F2 over 12 patterns, the check executes 0 cuts, every single cut, every pair of cuts and the 1-byte dribble; every triple of cuts on the 144-stream sub-alphabet; every single cut of 20k three-frame streams; and all 1024 alignments of 1024-byte reads over a long concatenation (1.5e7 executions quick, 1.8e8 thorough). Chunks are served by the cfg-guarded DataSource::Chunks hook, so boundaries are exact. Oracle: the frames handed on are a prefix of the frames the stream was built from, un-escaped and unmodified, every frame starting before the last 23 bytes is present, and the result equals the one-piece delivery.",
+        note="Trusted: the hook (14 added lines: pops the next chunk into the same 1024-byte read buffer); streams are well formed as the property requires; more than 3 cuts or more than 3 isolated 0x1A per frame are outside the bound."),
     "C10": dict(engine=E2, design="4/C10",
         technique="exhaustive enumeration of arrival histories through the real deduplication task (real tokio channels, polled step by step), property invariants on every execution",
         text="Bounded exhaustive history exploration of the real dedup::deduplicate_messages: every arrival history up to length 4-6 (thorough 5-7) over (2-3 decodable frames + an undecodable one) x 2 receivers x a timestamp grid straddling every window edge x window lengths {0,250,450,500} ms, in arbitrary and in non-decreasing time order (3.5 M executions quick, 2.0e8 thorough). Each history is pushed one arrival at a time into real tokio mpsc channels, the real task is polled on the calling thread and its output drained after every arrival, so the step at which each record leaves is observed. Judged per execution: no reception invented/duplicated/attached to another frame, arrival order inside a record, timestamp = first arrival, nothing emitted before its window closed, every decodable reception whose window certainly closed is out, and for non-decreasing stamps same-frame records >= window apart and output in order of first arrival. A list-based reference model is compared as a second opinion (agreement counted, never a verdict).",
